@@ -342,6 +342,66 @@ func RunStream(c *Ctx, cfg StreamCfg, handle func(w *Worker, sc StrCase, res *[s
 			})
 		}
 	}
+	// COMPLETE per anchor: BLOCK RELABELLING. A fixed-layout fast path may check a run of elements only relative to
+	// each other ("three couples with the same first letter") -- wrong strings of that kind are several simultaneous
+	// edits away from any valid vector. For every window width w in {1,2,3,4,6} and every pair of windows (i, j) of
+	// the anchor's elements: the abbreviations of window i replaced by those of window j (values kept), the two windows
+	// exchanging abbreviations, and exchanging values; plus every abbreviation's first / last byte replaced by that of
+	// every other abbreviation.
+	if cfg.Cover {
+		for vi, v := range spec.Versions {
+			vi, v := vi, v
+			anc := anchors(c.Rand("relabel-anchors", v.Name), v, 6)
+			c.Parallel("block-relabel-"+v.Name, len(anc), 1, func(w *Worker, ai int) {
+				hdr, el := gen.SplitElems(v, anc[ai])
+				ks, vs := make([]string, len(el)), make([]string, len(el))
+				for i, e := range el {
+					ks[i], vs[i], _ = strings.Cut(e, ":")
+				}
+				emit := func(k2, v2 []string) {
+					out := make([]string, len(el))
+					for i := range el {
+						out[i] = k2[i] + ":" + v2[i]
+					}
+					do(w, StrCase{hdr + strings.Join(out, "/"), vi, "block-relabel"})
+				}
+				for _, wd := range []int{1, 2, 3, 4, 6} {
+					for i := 0; i+wd <= len(el); i++ {
+						for j := 0; j+wd <= len(el); j++ {
+							if i == j {
+								continue
+							}
+							k2 := append([]string{}, ks...)
+							copy(k2[i:i+wd], ks[j:j+wd])
+							emit(k2, vs)
+							if j >= i+wd || i >= j+wd {
+								k3 := append([]string{}, ks...)
+								copy(k3[i:i+wd], ks[j:j+wd])
+								copy(k3[j:j+wd], ks[i:i+wd])
+								emit(k3, vs)
+								v3 := append([]string{}, vs...)
+								copy(v3[i:i+wd], vs[j:j+wd])
+								copy(v3[j:j+wd], vs[i:i+wd])
+								emit(ks, v3)
+							}
+						}
+					}
+				}
+				for i := range el {
+					for j := range el {
+						if i == j || len(ks[i]) == 0 || len(ks[j]) == 0 {
+							continue
+						}
+						k2 := append([]string{}, ks...)
+						k2[i] = ks[j][:1] + ks[i][1:]
+						emit(k2, vs)
+						k2[i] = ks[i][:len(ks[i])-1] + ks[j][len(ks[j])-1:]
+						emit(k2, vs)
+					}
+				}
+			})
+		}
+	}
 	// COMPLETE: every well-formed anchor wrapped in every "harmless-looking" decoration a tolerant parser
 	// might normalise away: BOM, CRLF / LF / TAB / NBSP / zero-width space before or after, surrounding
 	// quotes or brackets, a trailing comment, lower- and upper-cased as a whole, header case variants
